@@ -7,6 +7,7 @@ import (
 	"os"
 	"runtime/debug"
 	"strconv"
+	"strings"
 	"sync/atomic"
 	"syscall"
 	"time"
@@ -292,7 +293,13 @@ func shrinkAndSave(cfg *propCfg, a workerArgs, run uint64, trace []uint64, v *si
 		}
 		return false, nil
 	}
-	min, attempts := simkit.Shrink(trace, 4000, test)
+	budget := 4000
+	if strings.HasSuffix(class, "/free-running") {
+		// found on real threads: a re-execution is a retry, minimisation by
+		// re-execution would only measure luck
+		budget = 0
+	}
+	min, attempts := simkit.Shrink(trace, budget, test)
 	// make sure `best` belongs to the minimised trace
 	if ok, _ := test(min); !ok {
 		min = trace
